@@ -453,7 +453,7 @@ def hash_cases(rng, acc, d):
 
 
 def units(tier, seed):
-    n = 320 if tier == "quick" else 32000
+    n = 320 if tier == "quick" else 160000
     us = [{"kind": "trees", "seed": seed * 8191 + i, "n": 20} for i in range(0, n, 20)]
     us += [{"kind": "escape", "seed": seed + i} for i in range(2 if tier == "quick" else 8)]
     us += [{"kind": "hash", "seed": seed + i} for i in range(2 if tier == "quick" else 16)]
